@@ -1313,6 +1313,39 @@ def rule_step(ctx):
                     "`%s` advances `%s` but `%s` (%s) advances `%s`: %s" % (
                         x.name, show_terms(measured_json(x)), y.name, y.view.fn.short,
                         show_terms(measured_json(y)), p.get("reason", "")))
+    # sibling groups: the same family of counters kept by several writers must step identically
+    for g in tab.get("groups", []):
+        lists = []
+        for k in g["keys"]:
+            insts = measured_cache.get(k)
+            if not insts:
+                raise AnalysisBroken("R-STEP: group %s refers to %s, which is not tabled" % (g["name"], k))
+            fk0 = sorted({i.view.fn.key for i in insts})[0]
+            lists.append((k, [i for i in insts if i.view.fn.key == fk0]))
+        ref_k, ref = lists[0]
+        for k, lst in lists[1:]:
+            n_pairs += 1
+            free = list(lst)
+            miss = []
+            for x in ref:
+                hit = None
+                for y in free:
+                    if same_class([(d, s_) for d, s_, _ in x.terms], [(d, s_) for d, s_, _ in y.terms]):
+                        hit = y
+                        break
+                if hit is None:
+                    miss.append(x)
+                else:
+                    free.remove(hit)
+            gk = "group:%s:%s" % (g["name"], lst[0].view.fn.short)
+            if miss:
+                x = miss[0]
+                ctx.bad(rule, gk, lst[0].where, lst[0].view.fn.short,
+                        "%s: %s has a counter advancing `%s`, no counter of %s does (%s)" % (
+                            g["name"], ref[0].view.fn.short, show_terms(measured_json(x)),
+                            lst[0].view.fn.short, g.get("reason", "")))
+            else:
+                ctx.ok(rule, gk, lst[0].where, lst[0].view.fn.short, "", {"reason": g.get("reason", "")})
     untabled = sorted(k for k in found if k not in matched)
     if untabled:
         ctx.note("R-STEP: %d counter(s) discovered in the scope without a table entry (not decided): %s"
